@@ -3697,25 +3697,30 @@ def _fix_duplicate_regular_imports(source: str) -> str:
     """Remove duplicate plain imports from the same module."""
     root = core.parse(source)
 
-    import_aliases = collections.defaultdict(set)
     import_nodes = collections.defaultdict(list)
 
-    for node in core.walk(root, ast.Import):
-        for alias in node.names:
-            asname = (
-                alias.asname
-                if alias.asname != alias.name and alias.asname is not None
-                else alias.name
-            )
-            name = alias.name
-
-            import_nodes[asname].append(node)
-            import_aliases[name].add(asname)
+    # Only the same import in the same block is a duplicate. A fallback in an except or else
+    # branch, or in another function, binds the name where the first import does not.
+    blocks = (
+        block
+        for scope in core.walk(root, ast.AST)
+        for block in (getattr(scope, field, None) for field in ("body", "orelse", "finalbody"))
+        if isinstance(block, list)
+    )
+    for i, block in enumerate(blocks):
+        for node in core.filter_nodes(block, ast.Import):
+            for alias in node.names:
+                asname = (
+                    alias.asname
+                    if alias.asname != alias.name and alias.asname is not None
+                    else alias.name
+                )
+                import_nodes[(i, alias.name, asname)].append(node)
 
     replacements = {}
     removals = set()
 
-    for asname, nodes in import_nodes.items():
+    for (_, _, asname), nodes in import_nodes.items():
         if len(nodes) > 1:
             for node in nodes[1:]:
                 new_aliases = {
